@@ -25,6 +25,14 @@ from .util import header_functions, floc
 CMP_FTY = 'i32 (i8*, i8*, i8*)'
 
 
+def _strip_ext(f, ref):
+    i = f.get(ref) if isinstance(ref, str) else None
+    while i is not None and i.op in ('zext', 'sext', 'trunc'):
+        ref = i.o[0]
+        i = f.get(ref) if isinstance(ref, str) else None
+    return ref
+
+
 def run(m, rep, tier):
     x1 = rep.rule('X1', 'no size_t count/index is narrowed in the raw-array routines', floor=5)
     fns = [f for f in m.all_plain_functions() if (f.file or '').endswith('array.c') and 'raw_array' in f.name]
@@ -99,6 +107,45 @@ def run(m, rep, tier):
     from .util import check_callback_context
     _cb = rep.rule('X6', 'every call through a caller-supplied function pointer passes the context supplied with it', floor=1)
     check_callback_context(m, _cb, ('array.c',))
+
+    # ---- X8: a search bound that steps below the first element ---------------------------------
+    # `upper = mid - 1` reaches "before index 0" when mid is 0: with signed bounds that is -1 and ends the loop; with
+    # unsigned bounds it wraps to SIZE_MAX, the loop goes on and reads far outside the array
+    x8 = rep.rule('X8', 'binary search: a bound stepped down by one either is compared as a signed value or is stepped only where it is known to be non-zero', floor=1)
+    f = m.pfn('cstl_raw_array_search')
+    if f is None:
+        x8.undecided('cstl_raw_array_search', 'not in the model')
+    else:
+        from ..ir import unit_step
+        from ..facts import phi_leaves
+        pv = Prover(f)
+        nfound, bad = 0, []
+        for c in f.all_insts():
+            if c.op != 'icmp':
+                continue
+            ops = [_strip_ext(f, o) for o in c.o]
+            phis = [f.get(o) for o in ops if isinstance(o, str) and f.get(o) is not None and f.get(o).op == 'phi']
+            for P in phis:
+                for v, _lb, _lf in phi_leaves(f, pv.fc, P.ref):
+                    vi = f.get(v) if isinstance(v, str) else None
+                    if vi is None:
+                        continue
+                    base, step = unit_step(f, v)
+                    if step != -1 or not isinstance(base, str):
+                        continue
+                    nfound += 1
+                    if c.pred in ('slt', 'sle', 'sgt', 'sge'):
+                        continue
+                    if c.pred in ('ult', 'ule', 'ugt', 'uge') and not (pv.prove_at(('ne', base, '#0'), vi) or pv.prove_at(('ult', '#0', base), vi)):
+                        bad.append('the bound %s is set to %s - 1 at %s and compared as an unsigned value at %s, but nothing establishes %s != 0 there: '
+                                   'searching for something smaller than every element wraps the bound to SIZE_MAX and the next probe lies outside the array'
+                                   % (f.vname(P.ref), f.vname(base), vi.loc(), c.loc(), f.vname(base)))
+        if nfound == 0:
+            x8.ok('cstl_raw_array_search', 'NOT DECIDED: no bound that is stepped down by one and compared in the loop condition (half-open formulation?)', floc(m, f))
+        elif bad:
+            x8.violation('cstl_raw_array_search', '; '.join(sorted(set(bad))[:2]), floc(m, f), {})
+        else:
+            x8.ok('cstl_raw_array_search', '%d stepped-down bound(s): signed comparison or non-zero before the step' % nfound, floc(m, f))
 
     x4 = rep.rule('X4', 'linear find returns the first index whose element compares equal, else -1', floor=1)
     f = m.pfn('cstl_raw_array_find')
